@@ -440,7 +440,9 @@ func (t *Thread) cleanupCloseStack(c Cont, h int, err error) error {
 		if Truth(v) {
 			closeErr, ok := Metacall(t, v, "__close", []Value{v, ErrorValue(err)}, NewTerminationWith(c, 0, false))
 			if !ok {
-				return errors.New("to be closed value missing a __close metamethod")
+				// Like an error raised by a __close metamethod, this replaces
+				// the current error and the remaining values still get closed.
+				closeErr = errors.New("to be closed value missing a __close metamethod")
 			}
 			if closeErr != nil {
 				err = closeErr
